@@ -1,6 +1,7 @@
 import MetricsVerif.Driver.Util
 import MetricsVerif.Model.Bucket
 import MetricsVerif.Model.BucketGhost
+import MetricsVerif.Model.BucketUnwind
 
 namespace MetricsVerif.Driver.Bucket
 open MetricsVerif.Driver MetricsVerif.Bucket
@@ -43,6 +44,22 @@ def handle (args : List String) : Option String :=
         (step acc.1 tid, acc.2 ++ [lbl])) (init b progs, [])
     let res := showList (fun (t : Thread) => showList showRes t.results |>.replace "," "+") s.threads
     pure s!"{".".intercalate labels} | {res} | visible={showVals (visible s)}"
+  | ["unwind", b, progs, sched, marks] => do
+    -- `run` with marked grants: at the grant indices in `marks` (joined by `.`, `-` = none) the callback that
+    -- `clear_with` calls in that grant unwinds (`Model/BucketUnwind.lean`); additionally the values orphaned there, sorted
+    let b ← b.toNat?
+    let progs ← listTok progTok progs
+    let sched ← schedTok sched
+    let marks ← schedTok marks
+    let marked := (List.range sched.length).zip sched |>.map (fun (i, tid) => (tid, marks.contains i))
+    let labels := (marked.foldl (fun (acc : Sys × List String) (m : Nat × Bool) =>
+        let lbl := match acc.1.threads[m.1]? with | some t => t.pc.label | none => "nothread"
+        let s' := step acc.1 m.1
+        ((if m.2 then unwindStep s' m.1 else s'), acc.2 ++ [lbl])) (init b progs, [])).2
+    let s := runMarked (init b progs) marked
+    let res := showList (fun (t : Thread) => showList showRes t.results |>.replace "," "+") s.threads
+    let orph := (orphansOfRun (init b progs) marked).mergeSort (· ≤ ·)
+    pure s!"{".".intercalate labels} | {res} | visible={showVals (visible s)} | orphaned={showVals orph}"
   | _ => none
 
 end MetricsVerif.Driver.Bucket
